@@ -48,6 +48,17 @@ def mutations(t):
                     elif isinstance(v, (int, Decimal)):
                         setattr(n2, a, v + 1)
                     out.append(("attr:" + a, c2, False))
+                    if isinstance(v, (int, Decimal)) and not isinstance(v, bool):
+                        # numerically close is not equal
+                        c3 = deep(t)
+                        setattr(list(gen.nodes(c3))[i], a, Decimal(v) + Decimal("0.0000000001"))
+                        out.append(("attr-close:" + a, c3, False))
+                    if isinstance(v, str) and a == "value" and len(v) > (2 if nm in ("Phrase", "Regex") else 0):
+                        # a value that differs by a backslash escape only is another value
+                        c3 = deep(t)
+                        k = 1 if nm in ("Phrase", "Regex") else 0
+                        setattr(list(gen.nodes(c3))[i], a, v[:k] + "\\" + v[k:])
+                        out.append(("attr-escape:" + a, c3, False))
                 continue
             if kind == "class":
                 swaps = {"Word": T.Term, "Group": T.FieldGroup, "FieldGroup": T.Group, "Plus": T.Prohibit, "Not": T.Prohibit,
